@@ -3,7 +3,7 @@
 export GOFLAGS=-mod=mod GOPROXY=off GOSUMDB=off GOTOOLCHAIN=local
 id=$1; shift
 props=${@:-$id}
-src=/tmp/seed/$id
+src=${SEEDSRC:-/tmp/seed}/$id
 dst=/verif/seeded/$id
 mkdir -p $dst
 cp $src/patch.diff $src/seed_demo_test.go $src/NOTES.md $dst/ 2>/dev/null
@@ -25,7 +25,7 @@ git -C /repo worktree remove --force $wt; rm -f $wt.suite $wt.demo $wt.demo2
 # run the checks against the change
 git -C /repo apply $dst/patch.diff || { echo "cannot apply to /repo"; exit 2; }
 for p in $props; do
-  ( cd /verif && timeout 900 ./check $p quick > $dst/check_$p.out 2>&1; echo "exit=$?" >> $dst/check_$p.out )
+  ( cd /verif && MQVC_EVIDENCE_DIR=$dst timeout 900 ./check $p quick > $dst/check_$p.out 2>&1; echo "exit=$?" >> $dst/check_$p.out )
   echo "== $id vs $p: $(grep -c '^VIOLATION' $dst/check_$p.out) violations; $(tail -2 $dst/check_$p.out | tr '\n' ' ')"
 done
 git -C /repo checkout -- .
